@@ -183,6 +183,33 @@ example : flattenF 6 exLib ["M"] = .ok exFlat ∧
     exFlat.eqs[4]? = some (.eq (.fref ["b"] []) (.fref ["lb", "u"] [])) :=
   ⟨exFlat_ok, by decide +kernel, by decide +kernel⟩
 
+/-- Declaration equations: the binding equations of the flat model are exactly one `v = e` for every
+    leaf `v` that is neither parameter nor constant and has a binding (an entry with path `[]` in
+    `binds`), with `e` the winning binding renamed in its scope — whatever `e` is (the literals `0`,
+    `0.0`, `false`, `""` included: having a binding is a matter of `binds`, not of the value). -/
+theorem binding_equations_present (names : List Path) (vars : List Var) (fe : FEqn) :
+    fe ∈ bindEqs names vars ↔
+      ∃ v ∈ vars, v.isParam = false ∧ ∃ w, lookupBind v.binds [] = some w ∧
+        fe = .eq (.sym v.path) (rename names w.scope w.value) := by
+  simp only [bindEqs, List.mem_filterMap, Var.attr]
+  constructor
+  · rintro ⟨v, hv, h⟩
+    cases hp : v.isParam with
+    | true => simp [hp] at h
+    | false =>
+      cases hw : lookupBind v.binds [] with
+      | none => simp [hp, hw] at h
+      | some w =>
+        simp [hp, hw] at h
+        exact ⟨v, hv, hp, w, hw, h.symm⟩
+  · rintro ⟨v, hv, hp, w, hw, rfl⟩
+    exact ⟨v, hv, by simp [hp, hw]⟩
+
+example : bindEqs [["a"], ["on"], ["p"]]
+    [⟨["a"], "Real", [], [], [⟨[], [], .num 0⟩]⟩, ⟨["on"], "Boolean", [], [], [⟨[], [], .bool false⟩]⟩,
+     ⟨["p"], "Real", ["parameter"], [], [⟨[], [], .real "0.0"⟩]⟩, ⟨["s"], "String", [], [], [⟨[], [], .str ""⟩]⟩] =
+    [.eq (.sym ["a"]) (.num 0), .eq (.sym ["on"]) (.bool false), .eq (.sym ["s"]) (.str "")] := by decide
+
 /-- The initial equations of the flat model are exactly the initial equations (own and inherited)
     of every class instantiated at some instance path `q`, renamed at `q` — with the full prefix,
     like ordinary equations. -/
